@@ -14,7 +14,8 @@ package main
 // Case line:  C10 w <ver> <classes> <nss> <gws> <routes> <svcs> => <hosts>#<backends>#<tcps>
 //   ver      v1|b1|a2      API version of GatewayClass/Gateway/HTTPRoute objects and of the Sync(gwtyp) call
 //                          (TCPRoute is always v1alpha2)
-//   classes  - | name:o|f ,...                     GatewayClass: o = our controllerName, f = another one
+//   classes  - | name:o|f ,...                     GatewayClass: o = our controllerName, f = another one; a suffix
+//                                                  (o1, f2) adds a parametersRef ConfigMap g/params<k> (never read by the code)
 //   nss      - | name:k=v+k=v ,...   (name:- no labels)       Namespace objects
 //   gws      - | GW;GW..   GW = ns/name@class!L|L..   (no listeners: `!-`)
 //            L  = name~host~proto~port~kinds~from~sel
@@ -36,6 +37,8 @@ package main
 //   backends - | id~<0|1 ModeTCP>{srvname=ip:port*weight,...};...   (endpoints in slice order)
 //   tcps     - | port>backend;...
 //   PANIC:<msg> when the real code panicked.
+//
+// History mode (`C10 h ...`, sequences of clusters on ONE long-lived cache facade): see c10hist.go.
 
 import (
 	"context"
@@ -77,6 +80,15 @@ const c10Controller = "haproxy-ingress.github.io/controller"
 func init() {
 	props["C10"] = runC10
 	replayers["C10"] = func(c *ctx, a []string) {
+		if len(a) > 3 && a[0] == "h" {
+			h, err := c10HistParse(a[1:])
+			if err != nil {
+				fmt.Fprintln(c.out, "# C10 replay: cannot parse history:", err)
+				return
+			}
+			c10histCase(c, h)
+			return
+		}
 		if len(a) == 7 && a[0] == "w" {
 			w, err := c10Parse(a[1:])
 			if err != nil {
@@ -458,12 +470,17 @@ func c10Proto(tok string) string {
 func (w *c10World) Objects() []client.Object {
 	var objs []client.Object
 	for _, c := range w.Classes {
+		// o = our controllerName, f = another one; a suffix (o1, f2, ...) adds a parametersRef (never read by the code)
 		ctl := c10Controller
-		if c[1] != "o" {
+		if !strings.HasPrefix(c[1], "o") {
 			ctl = "example.com/another-controller"
 		}
 		cl := &gatewayv1.GatewayClass{ObjectMeta: metav1.ObjectMeta{Name: c[0]},
 			Spec: gatewayv1.GatewayClassSpec{ControllerName: gatewayv1.GatewayController(ctl)}}
+		if len(c[1]) > 1 {
+			pns := gatewayv1.Namespace("g")
+			cl.Spec.ParametersRef = &gatewayv1.ParametersReference{Group: "", Kind: "ConfigMap", Name: "params" + c[1][1:], Namespace: &pns}
+		}
 		switch w.Ver {
 		case "b1":
 			objs = append(objs, (*gatewayv1beta1.GatewayClass)(cl))
@@ -861,8 +878,16 @@ func c10Pairs(c *ctx, step int) {
 }
 
 func c10Random(c *ctx, r *gen.Rng, n int) {
-	nsPool := []string{"g", "o", "p"}
 	for i := 0; i < n; i++ {
+		c10case(c, c10RandWorld(r))
+		c.stat("random", 1)
+	}
+}
+
+// c10RandWorld: one random world (same stream of draws as before it was split out of c10Random)
+func c10RandWorld(r *gen.Rng) *c10World {
+	nsPool := []string{"g", "o", "p"}
+	{
 		w := &c10World{Ver: "v1", Classes: [][2]string{{"hap", "o"}, {"oth", "f"}}}
 		switch r.Intn(10) {
 		case 0:
@@ -1004,8 +1029,7 @@ func c10Random(c *ctx, r *gen.Rng, n int) {
 			}
 			w.Routes = append(w.Routes, rt)
 		}
-		c10case(c, w)
-		c.stat("random", 1)
+		return w
 	}
 }
 
@@ -1052,4 +1076,6 @@ func runC10(c *ctx) {
 		c10Pairs(c, 41)
 		c10Random(c, r, 2500)
 	}
+	// histories on one long-lived cache facade (c10hist.go); own stream, so the cases above do not move
+	c10Histories(c, gen.New(c.seed+0xc10f))
 }
